@@ -1,6 +1,7 @@
 import ScyllaVerif.Model.Util
 import ScyllaVerif.Model.Retry
 import ScyllaVerif.Model.Exec
+import ScyllaVerif.Model.RetryFrames
 /-! Line-protocol driver for C06 (deterministic: the implementation's line is ignored).
 
 * `dec <policy>/<i|n> - <cl>:<err>;<cl>:<err>;…`  — one retry session fed a history; prints its decisions.
@@ -11,7 +12,7 @@ import ScyllaVerif.Model.Exec
   attempts beyond the scripted outcomes succeed.  Prints the attempt log, the decisions, the result, the
   number of sessions created. -/
 namespace ScyllaVerif.Drive.C06
-open ScyllaVerif.Util ScyllaVerif.Retry ScyllaVerif.Exec
+open ScyllaVerif.Util ScyllaVerif.Retry ScyllaVerif.Exec ScyllaVerif.RetryFrames
 
 def clName : Consistency → String
   | .any => "any" | .one => "one" | .two => "two" | .three => "three" | .quorum => "quorum" | .all => "all"
@@ -252,8 +253,93 @@ def specRun (p : Policy) (idem : Bool) (cl0 : Consistency) (plan : List Target) 
       s!"N={n} S={sess} {rw} A={listOrDash shown ","}"
   | _ => "REJECT unparsable"
 
+/-- `<outcome>@<virtual ms>` with its duration -/
+def parseTimedOutcomeD (s : String) : Option (Outcome × Nat) :=
+  match s.splitOn "@" with
+  | [o, ms] => match parseOutcome o, ms.toNat? with
+    | some o, some d => some (o, d)
+    | _, _ => none
+  | _ => none
+
+def timedFinalName : TimedFinal → String
+  | .finished f => finalName f
+  | .timedOut => "err:timeout"
+
+/-- outcomes scripted by the end-to-end `wire` cases (harness/src/e2e/retry.rs `outcome_acts`) -/
+def parseWireOutcome (s : String) : Option Outcome :=
+  if s == "ok" then some .ok
+  else if s == "un" then some (.fail (.dbError (.unavailable 1)))
+  else if s == "bs" then some (.fail (.dbError .isBootstrapping))
+  else if s == "rt" then some (.fail (.dbError (.readTimeout 2 2 false)))
+  else if s == "rtd" then some (.fail (.dbError (.readTimeout 1 2 true)))
+  else if s == "ov" then some (.fail (.dbError .overloaded))
+  else if s == "se" then some (.fail (.dbError .serverError))
+  else if s == "tr" then some (.fail (.dbError .truncateError))
+  else if s == "wt" then some (.fail (.dbError (.writeTimeout 1 .simple)))
+  else if s == "wtb" then some (.fail (.dbError (.writeTimeout 1 .batchLog)))
+  else if s == "inv" then some (.fail (.dbError .invalid))
+  else if s == "cl" then some (.fail .brokenConnection)
+  else if s == "unp" then some (.fail (.dbError .unprepared))
+  else none
+
+def kvOf (ws : List String) (k : String) : Option String :=
+  ws.findSome? (fun w => match w.splitOn "=" with | [a, b] => if a == k then some b else none | _ => none)
+
+/-- Index of the first statement-frame answer of attempt `k` in the request's script (the script is one stream
+over all statement frames of the request; the model's answers are per attempt). -/
+def wireCursor (kind : StmtKind) (script : List Outcome) (rounds : Nat) : Nat → Nat
+  | 0 => 0
+  | k + 1 =>
+    let c := wireCursor kind script rounds k
+    c + (stmtAnswers (attempt kind ⟨fun j => script.getD (c + j) .ok, fun _ => .ok, fun _ => true⟩ rounds).frames).length
+
+/-- One logical request of a `wire` case: number of statement frames put on the wire and ok / err. -/
+def wireRequest (p : Policy) (idem : Bool) (cl0 : Consistency) (n : Nat) (kind : StmtKind) (script : List Outcome) :
+    String :=
+  let rounds := script.length + 2
+  let answers : Nat → Answers := fun k =>
+    let c := wireCursor kind script rounds k
+    ⟨fun j => script.getD (c + j) .ok, fun _ => .ok, fun _ => true⟩
+  let w := runWire p idem cl0 (List.replicate n Target.always) kind answers rounds
+  let ok := match w.trace.final with | .completed _ => true | .ignored _ => true | _ => false
+  s!"{w.stmtAnswers.length}:{if w.hung then "hung" else if ok then "ok" else "err"}"
+
+def runWireCase (ws : List String) : String :=
+  match kvOf ws "n", kvOf ws "pol", kvOf ws "idem", kvOf ws "kind", kvOf ws "cl", kvOf ws "via", kvOf ws "scripts" with
+  | some n, some pol, some idem, some kind, some cl, some via, some scripts =>
+    let p := if pol == "def" then some Policy.default else if pol == "down" then some Policy.downgrading
+      else if pol == "fall" then some Policy.fallthrough else none
+    let cl0 := if cl == "q" then some Consistency.localQuorum else if cl == "serial" then some Consistency.serial
+      else if cl == "localserial" then some Consistency.localSerial else none
+    -- a plain QUERY is one frame; everything prepared goes through execute_raw_with_consistency; the batches of
+    -- the cases need no PREPARE in prepare_batch (the unprepared statement has no values / the CachingSession
+    -- prepared it before)
+    let k : Option StmtKind := if kind == "exec" then some .execute
+      else if kind == "query" then (if via == "caching" then some .execute else some .query)
+      else if kind == "batch" then some (.batch 0) else none
+    match n.toNat?, p, idem.toNat?, k, cl0, (scripts.splitOn "/").mapM (fun sc => (sc.splitOn ".").mapM parseWireOutcome) with
+    | some n, some p, some idem, some k, some cl0, some scs =>
+      "retry " ++ " ".intercalate (scs.map (wireRequest p (idem != 0) cl0 n k))
+    | _, _, _, _, _, _ => "bad-case"
+  | _, _, _, _, _, _, _ => "bad-case"
+
 def run (case _impl : String) : String :=
+  if case.startsWith "wire retry " then
+    -- an environment problem (session could not be built): judged by nobody
+    if _impl.startsWith "e2e-skip" then _impl else runWireCase (words case)
+  else
   match words case with
+  | ["tmo", pol, clplant, outs] =>
+    match parsePolicy pol, clplant.splitOn "/" with
+    | some (p, idem), [c, pl, ts] =>
+      match parseCl c, parsePlan pl, ts.toNat?, (parseOps outs).mapM parseTimedOutcomeD with
+      | some cl0, some plan, some t, some os =>
+        let tr := runTimed p idem cl0 plan (fun k => (os.getD k (.ok, 7)).1) (fun k => (os.getD k (.ok, 7)).2) t
+        let a := listOrDash (tr.attempts.map (fun a => s!"{a.target}:{clName a.cl}")) ","
+        let d := listOrDash (tr.decisions.map decName) ","
+        s!"A={a} D={d} R={timedFinalName tr.final} S={if tr.decisions.isEmpty then 0 else 1}"
+      | _, _, _, _ => "bad-case"
+    | _, _ => "bad-case"
   | ["dec", pol, _, steps] =>
     match parsePolicy pol, (parseOps steps).mapM parseStep with
     | some (p, idem), some hist => listOrDash ((replay p idem Sess.init hist).map decName) " "
